@@ -120,7 +120,7 @@ def text_lit(s: str) -> str:
 
 
 EXC = {"IndexError": ".IndexError", "KeyError": ".KeyError", "ValueError": ".ValueError", "TypeError": ".TypeError",
-       "RuntimeError": ".RuntimeError", "AttributeError": ".AttributeError"}
+       "RuntimeError": ".RuntimeError", "AttributeError": ".AttributeError", "TokenizerError": ".TokenizerError"}
 
 
 def exc_code(node) -> str:
@@ -310,6 +310,11 @@ class Fn:
                 else:
                     raise Unsupported("f-string with format spec")
             return "(" + " ++ ".join(parts or ["([] : Text)"]) + ")", "str"
+        if isinstance(e, ast.List) and e.elts and not any(isinstance(x, ast.Starred) for x in e.elts):
+            parts = [self.expr(x, env, pre) for x in e.elts]
+            if any(p[1] != parts[0][1] for p in parts):
+                raise Unsupported("list display of mixed types")
+            return "[" + ", ".join(p[0] for p in parts) + "]", ("list", parts[0][1])
         if isinstance(e, ast.List) and len(e.elts) == 1 and isinstance(e.elts[0], ast.Starred):
             # [*s]: the list of the one-character strings of s
             c, t = self.expr(e.elts[0].value, env, pre)
@@ -463,6 +468,8 @@ class Fn:
         op = type(e.op)
         if at == "str" and bt == "str" and op is ast.Add:
             return f"({a} ++ {b})", "str"
+        if isinstance(at, tuple) and at[0] == "list" and at == bt and op is ast.Add:
+            return f"({a} ++ {b})", at
         if at == "millis" and bt == "int" and op is ast.Mod:
             v = self.fresh()
             pre.append(f"let {v} ← PyT.Millis.mod {a} {b}")
@@ -639,9 +646,9 @@ class Fn:
             return Fn.terminal(s.body) and Fn.terminal(s.orelse)
         return False
 
-    @staticmethod
-    def assigned(stmts) -> list[str]:
+    def assigned(self, stmts) -> list[str]:
         out: list[str] = []
+        attrs = self.spec.get("attrs", {})
 
         def tgt(t):
             if isinstance(t, ast.Name):
@@ -652,6 +659,10 @@ class Fn:
                     tgt(x)
             elif isinstance(t, ast.Subscript) and isinstance(t.value, ast.Name):
                 tgt(t.value)      # buf[i] = x updates buf
+            elif isinstance(t, ast.Subscript) and ast.unparse(t.value) in attrs:
+                name = attrs[ast.unparse(t.value)][0]      # d[k] = v on a dict carried as a state variable updates it
+                if name not in out:
+                    out.append(name)
         for s in stmts:
             for n in ast.walk(s):
                 if isinstance(n, ast.Assign):
@@ -677,7 +688,8 @@ class Fn:
             if k is None:
                 if self.ret != "none":
                     raise Unsupported("control reaches the end of a function that returns a value")
-                return ["pure ()"]
+                state = self.spec.get("state", ())
+                return ["pure (" + ", ".join(["()"] + [lname(v) for v in state]) + ")"] if state else ["pure ()"]
             return k(env)
         s, rest = stmts[0], stmts[1:]
 
@@ -701,7 +713,12 @@ class Fn:
                 if len(s.targets) != 1:
                     raise Unsupported("chained assignment")
                 target = s.targets[0]
-                code, t = self.expr(s.value, env, pre)
+                if isinstance(s.value, ast.List) and not s.value.elts and isinstance(target, ast.Name) \
+                        and isinstance(env.get(target.id), tuple) and env[target.id][0] == "list":
+                    t = env[target.id]       # `x = []` for a list variable that already has an element type
+                    code = f"([] : {lean_type(t)})"
+                else:
+                    code, t = self.expr(s.value, env, pre)
             else:
                 target = s.target
                 code, t = self.binop(ast.BinOp(left=s.target, op=s.op, right=s.value), env, pre)
@@ -713,10 +730,10 @@ class Fn:
                 dvar, dt = self.spec["attrs"][ast.unparse(target.value)]
                 if dvar not in self.spec.get("state", ()):
                     raise Unsupported("assignment into a dict that is not a state variable of the entry")
-                k, kt = self.expr(target.slice, env, pre)
+                kc, kt = self.expr(target.slice, env, pre)
                 if kt != "str" or t != dt[2]:
                     raise Unsupported("dict item of the wrong type")
-                return pre + [f"let {dvar} : {lean_type(dt)} := PyT.dictSet {dvar} {k} {code}"] + cont(env2)
+                return pre + [f"let {dvar} : {lean_type(dt)} := PyT.dictSet {dvar} {kc} {code}"] + cont(env2)
             if isinstance(target, ast.Subscript) and isinstance(target.value, ast.Name) and env.get(target.value.id) == "bytes" \
                     and not isinstance(target.slice, ast.Slice):
                 # buf[i] = x / buf[i] op= x on a bytearray: the updated buffer (IndexError / ValueError as bytearray raises them)
@@ -979,13 +996,14 @@ class Fn:
         return pre + self.after_loop(call, carried, env, has_ret, cont, loop)
 
     # -- whole function -----------------------------------------------------------------------
-    @staticmethod
-    def message_only(fdef) -> set[str]:
+    def message_only(self, fdef) -> set[str]:
         """names whose every use is inside the argument of a `raise` (or inside the value assigned to another such
         name): exception message texts, which the model does not carry"""
-        cand = set(Fn.assigned(fdef.body))
+        cand = set(self.assigned(fdef.body))
         params = {a.arg for a in fdef.args.args}
         cand -= params
+        # parameters and state variables of the entry are results, never message texts
+        cand -= {p[0] for p in self.spec["params"]} | set(self.spec.get("state", ()))
         changed = True
         while changed:
             changed = False
@@ -1009,7 +1027,43 @@ class Fn:
                     changed = True
         return cand
 
+    def desugar_state(self, fdef):
+        """`state_attrs` of the entry: attribute chains of `self` that are state variables of the translated definition.
+        `X.append(v)` is `x = x + [v]`, `del X[:]` is `x = []`, `X op= v` is `x op= v`, a read of `X` is `x`."""
+        sa = self.spec.get("state_attrs")
+        if not sa:
+            return fdef
+
+        class T(ast.NodeTransformer):
+            def visit_Expr(self, node):
+                c = node.value
+                if isinstance(c, ast.Call) and isinstance(c.func, ast.Attribute) and c.func.attr == "append" \
+                        and ast.unparse(c.func.value) in sa and len(c.args) == 1 and not c.keywords:
+                    n = sa[ast.unparse(c.func.value)]
+                    return ast.Assign(targets=[ast.Name(id=n, ctx=ast.Store())],
+                                      value=ast.BinOp(left=ast.Name(id=n, ctx=ast.Load()), op=ast.Add(),
+                                                      right=ast.List(elts=[self.visit(c.args[0])], ctx=ast.Load())))
+                return self.generic_visit(node)
+
+            def visit_Delete(self, node):
+                if len(node.targets) == 1 and isinstance(node.targets[0], ast.Subscript) \
+                        and ast.unparse(node.targets[0].value) in sa and isinstance(node.targets[0].slice, ast.Slice) \
+                        and node.targets[0].slice.lower is None and node.targets[0].slice.upper is None \
+                        and node.targets[0].slice.step is None:
+                    n = sa[ast.unparse(node.targets[0].value)]
+                    return ast.Assign(targets=[ast.Name(id=n, ctx=ast.Store())], value=ast.List(elts=[], ctx=ast.Load()))
+                return self.generic_visit(node)
+
+            def visit_Attribute(self, node):
+                if ast.unparse(node) in sa:
+                    return ast.Name(id=sa[ast.unparse(node)], ctx=node.ctx)
+                return self.generic_visit(node)
+        out = T().visit(fdef)
+        ast.fix_missing_locations(out)
+        return out
+
     def translate(self, fdef: ast.FunctionDef) -> str:
+        fdef = self.desugar_state(fdef)
         self.msg_only = self.message_only(fdef)
         body_of = self.spec.get("body_of")
         if body_of:
@@ -1073,6 +1127,17 @@ TARGETS = [
      "assume": "col_parts.match is the hand-derived scanner A1.colPartsMatch"},
     {"group": "A1", "module": "numbers_parser.tokenizer", "qualname": "parse_numbers_range.col_to_index", "lean": "col_to_index",
      "params": [("col_str", "str")], "ret": "int"},
+    # ---- C18: the two token-buffer methods of the Tokenizer, the instance attributes threaded as state -----------------
+    {"group": "Tok", "module": "numbers_parser.tokenizer", "qualname": "Tokenizer.assert_empty_token", "lean": "assert_empty_token",
+     "params": [("token", ("list", "str"))], "ret": "none",
+     "state_attrs": {"self.token": "token"},
+     "assume": "self.token (the list of pieces of the token being read) is the parameter token"},
+    {"group": "Tok", "module": "numbers_parser.tokenizer", "qualname": "Tokenizer.save_token", "lean": "save_token",
+     "params": [("items", ("list", ("raw", "Tokenizer.Tok"))), ("token", ("list", "str"))], "ret": "none",
+     "state": ["items", "token"], "state_attrs": {"self.items": "items", "self.token": "token"},
+     "externs": {"Token.make_operand": ("Tokenizer.makeOperand", ["str"], ("raw", "Tokenizer.Tok"), False)},
+     "assume": "self.items / self.token are state variables returned beside the value; Token.make_operand is the model's "
+               "makeOperand (NUMBER / RANGE merged; its float() test stays hand-modelled)"},
     {"group": "Items", "module": "numbers_parser.containers", "qualname": "ItemsList.__getitem__", "lean": "ItemsList.getitem",
      "params": [("items", ("list", "item")), ("key", "key")], "ret": "item",
      "attrs": {"self._items": ("items", ("list", "item")), "self._item_name": ("([] : Text)", "str")},
@@ -1221,7 +1286,7 @@ def find_def(module: str, qualname: str) -> ast.FunctionDef:
     return node
 
 
-GROUP_IMPORTS = {"A1": ["NumbersModel.Model.A1"], "Items": [], "NumFmt": [], "Addr": [], "DateFmt": [], "Duration": [], "Dec128": [], "Merge": [], "Edit": [], "Cache": []}
+GROUP_IMPORTS = {"A1": ["NumbersModel.Model.A1"], "Items": [], "NumFmt": [], "Addr": [], "DateFmt": [], "Duration": [], "Dec128": [], "Merge": [], "Edit": [], "Cache": [], "Tok": ["NumbersModel.Model.Tokenizer"]}
 
 
 def generate(group: str) -> tuple[str, dict]:
@@ -1246,7 +1311,9 @@ def generate(group: str) -> tuple[str, dict]:
             chunks += parts[:-1] + [head + "\n" + parts[-1], ""]  # the doc comment sits on the main definition
             status[spec["lean"]] = {"ok": True, "python": f"{spec['module']}.{spec['qualname']}",
                                     "source_lines": len(src.split("\n")) - (len(doc.split("\n")) if doc else 0)}
-        except Unsupported as e:
+        except Exception as e:  # noqa: BLE001  (Unsupported, or a construct the translator itself trips over: same verdict)
+            if not isinstance(e, Unsupported):
+                e = Unsupported(f"translator error {type(e).__name__}: {e}")
             chunks.append(f"-- NOT TRANSLATED: {spec['module']}.{spec['qualname']}: {e}")
             chunks.append("")
             status[spec["lean"]] = {"ok": False, "python": f"{spec['module']}.{spec['qualname']}", "why": str(e)}
